@@ -396,6 +396,9 @@ class CHECK(vlib.Check):
                 "as_if_never: the session s that is erased is never granted PR_PRIVILEGE_KICK (its kicks would be visible effects by design; "
                 "OTHER sessions may hold the privilege and kick anybody, s included); session names (the server's id strings) are pairwise "
                 "different and none is also a session's host name (xnm_event; KickClientCallback looks the owner of a host node up by name)",
+                "ord_frame / ord_detach_clean / ord_as_if_never (ordered children, Refl/IsoOrd.v): INSERTORDEREDDATA carries one PR_NAME_KEYS string "
+                "(with several, nodes created by the traversal's own callback can be visited by it: left to the harness-only stream i), fewer "
+                "than 2^32 generated names per node, no node-count limit; ord_as_if_never: the premises of as_if_never",
                 "byte_cut_is_command_cut composes with C03's d_prefix_safety (Gw/FrameDefault.v; standard binary gateway, default encoding, "
                 "Messages within max_in and 2^32): a cut after any byte prefix is a cut between two complete commands (also exercised byte by "
                 "byte by the harness); how a flattened Message is parsed is left to C01/C02 (any decode function)",
